@@ -457,6 +457,48 @@ def thread_local_rules(chk, P, prefix):
     chk.ob("%s.R10:ThreadLocalCtxtFrame" % prefix, "a frame is an immutable shared snapshot (Arc, no interior mutability): moving it carries its properties", frame_adt)
 
 
+    def frame_yields_entries():
+        """The frame's enumeration hands every buffered pair to the visitor: inside the loop over the map the visitor is called once per entry
+        (with the entry's key and value), and its answer is propagated."""
+        bs = [b for b in P.find(trait="emit_core::props::Props", method="for_each") if not b.is_closure and (b.self_ty or "").endswith("ThreadLocalCtxtFrame")]
+        if not bs:
+            raise mir.AnchorMissing("impl Props for ThreadLocalCtxtFrame")
+        b = bs[0]
+        vis = [c for c in b.calls(normal_only=True) if c.callee.get("name") in ("call_mut", "call") and b.in_cycle(c.bb) and mir.o_is_param(mir.o_root(b.origin(c.args[0])), idx=2)]
+        nx = [c for c in b.calls(normal_only=True) if c.callee.get("name") == "next" and b.in_cycle(c.bb)]
+        if len(vis) != 1 or len(nx) != 1:
+            return False, ("the frame's for_each calls its visitor %d times inside its loop over the buffered pairs (expected once per entry): the ambient "
+                           "properties would not be enumerated" % len(vis)), [], b.span
+        if not any(r[0] == "callsite" and r[1] == nx[0].bb for r in common.roots(b.origin(vis[0].args[1]))):
+            return False, "the visitor is not given the entry the loop just took", [], vis[0].loc
+        return True, "", [vis[0].loc]
+    chk.ob("%s.R10:frame-yields-entries" % prefix, "the frame enumerates every buffered pair", frame_yields_entries)
+
+    def push_unwrap_guarded():
+        """open_push never unwraps an empty snapshot: if it unwraps `span.props`, the None case has been replaced by a fresh map on every path to
+        the unwrap (the first push on a thread starts from None)."""
+        b = P.impl_method(CTXT, TLC, "open_push")
+        uw = [c for c in b.calls(normal_only=True) if c.callee.get("name") in ("unwrap", "expect") and
+              mir.o_field_path(b.origin(c.args[0], through_calls=("as_mut", "as_ref", "as_deref_mut")))[1][-1:] == ["props"]]
+        if not uw:
+            return True, "", ["open_push does not unwrap the snapshot"]
+        stores = [bb for bb, j2, st in b.statements(normal_only=True) if st["k"] == "assign" and st["place"].get("p") and
+                  [p.get("n") for p in st["place"]["p"] if isinstance(p, dict) and "n" in p][-1:] == ["props"]]
+        tests = [(sbb, t2) for sbb, t2 in b.switches() if (lambda so: so[0] == "call" and so[1].callee.get("name") in ("is_none", "is_some"))(mir.norm_bool(b.switch_origin(sbb))[0])]
+        if not tests or not stores:
+            return False, ("open_push unwraps span.props at %s without first replacing None by a map: the first push on a thread (or after an empty "
+                           "snapshot) panics" % uw[0].loc), [], uw[0].loc
+        sbb, t2 = tests[0]
+        so, pos = mir.norm_bool(b.switch_origin(sbb))
+        none_edge_true = (so[1].callee.get("name") == "is_none") == pos
+        none_targets = [nb for v, nb in ([(v, nb) for v, nb in t2["targets"]] + [("otherwise", t2["otherwise"])]) if (str(v) != "0") == none_edge_true]
+        for nt in none_targets:
+            if uw[0].bb in b.reachable_from(nt, removed_blocks=set(stores)):
+                return False, "on the None edge open_push can reach the unwrap at %s without storing a map" % uw[0].loc, [], uw[0].loc
+        return True, "", [uw[0].loc]
+    chk.ob("%s.R9:open_push-unwrap-guarded" % prefix, "open_push replaces an empty snapshot by a map before unwrapping it", push_unwrap_guarded)
+
+
 def run(chk):
     P = mir.Program("K1")
     chk.use_program(P)
